@@ -910,6 +910,9 @@ def deep_unbalanced_rows(tier):
     return rows
 
 
+RETURNS = object()       # the call must return a result
+
+
 class Prefix(object):
     """expected message: starts with this text, line breaks rendered"""
     def __init__(self, text):
@@ -956,6 +959,15 @@ def opt_zoo():
                                                         invalid_msg='Use {digits} only, 100% {0} \\ please', debug=d)),
         'Opt/formula-names': (ITEM, lambda d: FormulaGrader(answers='x', variables=['x', 'a_{1}', 'T_{ab}'], debug=d)),
     }
+    from mitxgraders import RealMatrices, RealVectors
+
+    def mops(**kw):
+        return MatrixGrader(variables=['A', 'v'], sample_from={'A': RealMatrices(shape=[2, 2]), 'v': RealVectors(shape=2)},
+                            max_array_dim=2, **kw)
+    Z['Opt/matrix-ops'] = (ITEM, lambda d: mops(answers='A', debug=d))
+    Z['Opt/matrix-ops/quiet'] = (ITEM, lambda d: mops(answers='A', suppress_matrix_messages=True, debug=d))
+    Z['Opt/matrix-ops/singlelist'] = (ITEM, lambda d: SingleListGrader(answers=['A', 'v'], delimiter=';', ordered=True, subgrader=mops(), debug=d))
+    Z['Opt/matrix-ops/list'] = (LIST, lambda d: ListGrader(answers=['A', 'v'], subgraders=mops(), ordered=True, debug=d))
     for i, (ob, cb) in enumerate(BRACKET_SETS):
         Z['Opt/interval-%d' % i] = (ITEM, lambda d, ob=ob, cb=cb: IntervalGrader(
             answers=ob[0] + '1,2' + cb[0], opening_brackets=ob, closing_brackets=cb, debug=d))
@@ -1011,6 +1023,29 @@ def option_rows(tier):
                      ('det([1,2])', 'det'), ('dotp(1,2)', 'dotp'), ('dotp([1,2],[1,2,3])', 'dotp'), ('dom2([1,2],1)', 'dom2'),
                      ('cross([1,2],[1,2])', 'cross')]:
         rows.append(('Opt/matrix-funcs', text, 'ArgumentShapeError', Prefix(SHAPE % fn)))
+    # matrix operation errors with complex-typed operands / exponents: a complex exponent is not an integer power, a complex scalar is
+    # a scalar for the shape rules, a complex entry does not change a shape
+    NONINT = 'Cannot raise a matrix to non-integer powers.'
+    cplx = ['i', 'j', '1+i', '2+0*i', '-i', '0.5*i', 'i*i', '(1-i)']
+    mat_rows = [('%s^(%s)' % (b, e), 'MathArrayError', NONINT) for b in ('A', '[[1,2],[3,4]]', '[[1,i],[i,1]]', '(A*A)') for e in cplx]
+    for c in ('i', '1+i', '2+0*i'):
+        mat_rows += [('v^(%s)' % c, 'MathArrayShapeError', 'Cannot raise a vector to powers.'),
+                     ('(%s)^v' % c, 'MathArrayShapeError', 'Cannot raise a scalar to power of a vector.'),
+                     ('(%s)^A' % c, 'MathArrayShapeError', 'Cannot raise a scalar to power of a matrix.'),
+                     ('v+%s' % c, 'MathArrayShapeError', 'Cannot add/subtract scalars to a vector.'),
+                     ('A-(%s)' % c, 'MathArrayShapeError', 'Cannot add/subtract scalars to a matrix.'),
+                     ('(%s)/v' % c, 'MathArrayShapeError', 'Cannot divide by a vector'),
+                     ('det(%s)' % c, 'ArgumentShapeError', Prefix(SHAPE % 'det')),
+                     ('sin([%s,1])' % c, 'ArgumentShapeError', Prefix(SHAPE % 'sin')),
+                     ('A*[%s,1,0]' % c, 'MathArrayShapeError',
+                      'Cannot multiply a matrix of shape (rows: 2, cols: 2) with a vector of length 3.')]
+    for text, cls, msg in mat_rows:
+        rows.append(('Opt/matrix-ops', text, cls, msg))
+    for text, cls, msg in mat_rows[::3]:
+        rows.append(('Opt/matrix-ops/singlelist', text + ';v', cls, msg))
+        rows.append(('Opt/matrix-ops/list', ['list', [text, 'v']], cls, msg))
+    for text, cls, msg in mat_rows[:len(cplx) * 2:2]:
+        rows.append(('Opt/matrix-ops/quiet', text, None, RETURNS))       # suppressed: graded as wrong, not raised
     # brackets
     for i, (ob, cb) in enumerate(BRACKET_SETS):
         opts_o = ', '.join("'%s'" % c for c in ob)
@@ -1173,6 +1208,9 @@ def check_anticipated(row):
     inp = build_object(spec)
     rec = observe(g, inp, attempt=1 if credit else None, seed=12345, tag=(name, spec, None))
     st, val = rec['status'], rec['val']
+    if msg is RETURNS:
+        return None if st == 'ret' else 'expected a result, the call %s' % (
+            'raised %s: %s' % (type(val).__name__, str(val)[:200]) if st == 'exc' else 'timed out')
     if st != 'exc':
         return 'expected %s, the call %s' % (cls, 'returned %r' % (val,) if st == 'ret' else 'timed out')
     if type(val).__name__ != cls:
@@ -2279,13 +2317,17 @@ def scope_child():
     sys.stdout.flush()
 
 
+def scope_reference_seeded(plan):
+    return scope_reference(plan)
+
+
 def scope_outcome(rec):
     if rec['status'] == 'exc':
         return ['exc', type(rec['val']).__name__, str(rec['val'])]
     return [rec['status'], None, None]
 
 
-def scope_reference():
+def scope_reference(plan=None):
     """{(grader, index): outcome} computed by one fresh interpreter per configuration (in parallel)"""
     import json
     import os
@@ -2293,10 +2335,15 @@ def scope_reference():
     env = dict(os.environ)
     env['PYTHONPATH'] = os.pathsep.join([core.REPO, core.VERIF])
     procs = []
-    plan = {}
+    given = plan
+    plan = dict(plan or {})
     for name, factory in sorted(scope_zoo().items()):
-        mode, _ = factory()
-        plan[name] = (mode, scope_jobs(name, mode))
+        if given is not None:
+            if name not in plan:
+                continue
+        else:
+            mode, _ = factory()
+            plan[name] = (mode, scope_jobs(name, mode))
         p = subprocess.Popen([sys.executable, '-B', '-c', 'from harness.props import c02; c02.scope_child()'],
                              stdin=subprocess.PIPE, stdout=subprocess.PIPE, stderr=subprocess.PIPE, env=env, cwd=core.VERIF)
         p.stdin.write((json.dumps({'grader': name, 'inputs': plan[name][1]}) + '\n').encode())
@@ -2354,6 +2401,43 @@ def run_scopes(ctx, res, rng):
                 last_seen[key] = name
                 if got[0] == 'exc':
                     res.nontrivial.add(('scope', name, repr(spec)))
+    # hostile perturbers (deeply nested BALANCED text full of unknown names / functions / suffixes: the parser gives up half way)
+    # each followed by a text this process has never parsed; reference: the same fresh texts in fresh interpreters
+    fresh = rng.randrange(10 ** 6, 10 ** 9)
+    bases = {'Scope/plain': ['x+1', '2*x'], 'Scope/f-g': ['f(x)+1', 'g(x)*x'], 'Scope/const': ['c*x', 'c*y*2'], 'Scope/suffix': ['x+2k', 'x+1'],
+             'Scope/matrix-const': ['c*x', 'x*c*2'], 'Scope/numerical-f': ['f(1)', '2'], 'Scope/whitelist': ['sin(x)+1', 'cos(x)']}
+    probes = {}
+    hist = {}
+    step = 0
+    for d in (60, 120, 400):
+        for core_text in ('zeta+nosuch(eta)+2zz', 'theta*unk(1)', '3qq+omega_{1}'):
+            for shape in ('(%s', 'sin(%s', '[%s'):
+                opener = shape % ''
+                closer = ']' if opener == '[' else ')'
+                hostile = core_text + '+' + opener * d + core_text + closer * d        # unknown names before AND inside the nesting
+                for name in sorted(bases)[step % 2::2]:
+                    mode, g = graders[name]
+                    observe(g, hostile, seed=1, tag=(name, hostile, None))
+                    res.oracle_evals += 1
+                    text = '%s+0*%d' % (bases[name][step % 2], fresh + step)
+                    step += 1
+                    rec = observe(g, text, seed=777 + len(probes.get(name, (mode, []))[1]), tag=(name, text, None))
+                    res.oracle_evals += 1
+                    probes.setdefault(name, (mode, []))[1].append(text)
+                    hist[(name, len(probes[name][1]) - 1)] = (scope_outcome(rec), hostile[:40] + '... (%d levels)' % d)
+    plan2 = {}
+    for name, (mode, texts) in probes.items():
+        plan2[name] = (mode, texts)
+    _, ref2 = scope_reference_seeded(plan2)
+    for key in sorted(hist):
+        got, after = hist[key]
+        if got != ref2[key]:
+            n_diff += 1
+            name, i = key
+            res.witnesses.append({'key': 'scope-fresh:%s:%d' % key, 'kind': 'scope-fresh', 'grader': name, 'input': probes[name][1][i],
+                                  'what': 'a never-parsed text, graded right after the hostile submission %r: in a fresh interpreter %r, here %r'
+                                          % (after, ref2[key], got)})
+    res.distribution['scope_fresh_text_probes'] = len(hist)
     res.distribution['scope_configurations'] = len(names)
     res.distribution['scope_calls'] = sum(len(plan[n][1]) for n in names) * len(orders)
     res.distribution['scope_outcomes'] = outcomes
@@ -2509,6 +2593,11 @@ def replay(w):
         res = run(ctx)
         hit = [x for x in res.witnesses if x.get('kind') == kind and x.get('grader') == w.get('grader') and x.get('input') == w.get('input')]
         return bool(hit), 'history-dependent outcome for %s on %r: %s' % (w.get('grader'), w.get('input'), hit[0]['what'] if hit else 'not reproduced')
+    if kind == 'scope-fresh':
+        res = core.Result()
+        run_scopes({'tier': 'quick', 'seed': 0, 'escalate': False, 'model_built': False}, res, random.Random(5))
+        hit = [x for x in res.witnesses if x.get('kind') == 'scope-fresh']
+        return bool(hit), 'never-parsed texts after hostile submissions: %s' % (hit[0]['what'] if hit else 'all as in a fresh interpreter')
     if kind == 'scope':
         plan, ref = scope_reference()
         graders = dict((n, scope_zoo()[n]()) for n in plan)
